@@ -152,17 +152,17 @@ def run_point(ctx: Ctx, model, which):
         guard_dec = [(l, c) for l, c in oc.decisions if ("<" in l or ">" in l) and "pmax" not in l]
         if oc.kind == "raise":
             ok = oc.exc.is_a("CalculationError") and not oc.exc.fault
-            ctx.ob(ok, Finding("C13.I-guard", fi.where, f"{which}|raises:{oc.exc.name}", f"{which} raises {oc.exc} on path {oc.decisions}"),
-                   nontrivial_key=(which, "raise", tuple(c for l, c in oc.decisions)))
+            ctx.ob(ok, Finding("C13.I-guard", fi.where, f"{which}|n={NC}|raises:{oc.exc.name}", f"{which} raises {oc.exc} on path {oc.decisions}"),
+                   nontrivial_key=(which, NC, "raise", tuple(c for l, c in oc.decisions)))
             continue
         nret += 1
         val, cp, lg = oc.value
         # I-guard: a returning path has success == True and all 2*NC comparisons decided False
         okg = succ == 0 and len(guard_dec) >= 2 * NC and all(c == 1 for l, c in guard_dec)
-        ctx.ob(okg, Finding("C13.I-guard", fi.where, f"{which}|returns-unchecked",
+        ctx.ob(okg, Finding("C13.I-guard", fi.where, f"{which}|n={NC}|returns-unchecked",
                             f"{which} returns on a path with root.success={'True' if succ == 0 else 'False/untested'} and mole-fraction "
                             f"comparisons {guard_dec}: before returning, success must be tested and every fraction compared with 0 and 1"),
-               nontrivial_key=(which, "guard", tuple(c for l, c in oc.decisions)))
+               nontrivial_key=(which, NC, "guard", tuple(c for l, c in oc.decisions)))
         # I-residual: every entry equates the spreading pressures of two components, each evaluated at its own fictitious
         # pressure p_c / X_c (reverse: P * Y_c / x_c); the assignment c -> X_c is a bijection onto {u_0..u_(n-2), 1 - sum u};
         # the equated pairs connect all components.  (Any order of components / any spanning chain is accepted.)
@@ -211,12 +211,12 @@ def run_point(ctx: Ctx, model, which):
                 comp[find(a_)] = find(b_)
             if not bad and len({find(c) for c in range(NC)}) != 1:
                 bad = f"equated pairs {edges} do not connect all components"
-        ctx.ob(not bad, Finding("C13.I-residual", fi.where, f"{which}|residual",
+        ctx.ob(not bad, Finding("C13.I-residual", fi.where, f"{which}|n={NC}|residual",
                                 f"{which}: solver objective {[str(x) for x in getattr(res, 'items', [res])]}: {bad}"),
-               nontrivial_key=(which, "residual"), sample={"rule": "I-residual", "function": which, "objective": [str(x) for x in getattr(res, "items", [])]} if nret == 1 else None)
+               nontrivial_key=(which, NC, "residual"), sample={"rule": "I-residual", "function": which, "objective": [str(x) for x in getattr(res, "items", [])]} if nret == 1 else None)
         okb = all(e[3].get("branch") == "BR" for e in cp.get("log_at_solve", []) if e[0] == "spreading_pressure_at")
         ctx.ob(okb, Finding("C13.I-residual", fi.where, f"{which}|branch", "spreading pressures must be queried with the caller's branch"),
-               nontrivial_key=(which, "branch"))
+               nontrivial_key=(which, NC, "branch"))
         if bad:
             continue
         # I-mixing: in the caller's component order
@@ -234,14 +234,14 @@ def run_point(ctx: Ctx, model, which):
         inv = sum(xf[i] / sp.Function(f"n{i}", positive=True)(p0[i]) for i in range(NC))
         want_l = [xf[i] / inv for i in range(NC)]
         okm = isinstance(loadings, Vec) and len(loadings.items) == NC and all(sp.simplify(a - b) == 0 for a, b in zip(loadings.items, want_l))
-        ctx.ob(okm, Finding("C13.I-mixing", fi.where, f"{which}|loadings",
+        ctx.ob(okm, Finding("C13.I-mixing", fi.where, f"{which}|n={NC}|loadings",
                             f"{which}: returned loadings {[str(sp.simplify(x)) for x in getattr(loadings, 'items', [loadings])]}; required x_i*n_t with "
                             f"1/n_t = sum x_j/n_j(p0_j), in the caller's order: {[str(x) for x in want_l]}"),
-               nontrivial_key=(which, "mixing"))
+               nontrivial_key=(which, NC, "mixing"))
         if gas is not None:
             okgz = isinstance(gas, Vec) and len(gas.items) == NC and all(sp.simplify(a - b) == 0 for a, b in zip(gas.items, ygas))
             ctx.ob(okgz, Finding("C13.I-mixing", fi.where, "reverse_iast|gas-fractions", "returned gas fractions must be the solved fractions (last = 1 - sum of the others) in the caller's order"),
-                   nontrivial_key=(which, "gas"))
+                   nontrivial_key=(which, NC, "gas"))
     ctx.floor(f"{which} returning paths", nret, 1)
 
 
@@ -382,8 +382,11 @@ def run(ctx: Ctx):
     model = load(ctx.root)
     ctx.assume("scipy.optimize.root: res.success is truthful and res.x is a root of the objective when it is True")
     ctx.rule("I-residual / I-guard / I-mixing: symbolic interpretation of iast_point and reverse_iast for 3 components")
-    run_point(ctx, model, "iast_point")
-    run_point(ctx, model, "reverse_iast")
+    global NC
+    for NC in ((2, 3, 4) if ctx.tier == "thorough" else (2, 3)):        # mixtures of 2, 3 (and 4) components
+        run_point(ctx, model, "iast_point")
+        run_point(ctx, model, "reverse_iast")
+    NC = 3
     r_entry(ctx, model)
     r_wrappers(ctx, model)
     r_dtype(ctx, model)
